@@ -7,18 +7,26 @@ import TinsModel.Wire.Chain.ParseLinkWifi
   `StackableAll` is not an assumption about parsed packets: `parse_stackable_all` shows that whatever the nested parsing
   constructors build is representable, **except** for what `Residual` names explicitly — the accepted packets the statement
   does not hold for, or that the model does not cover:
-    * classes outside the covered families (App, Wifi) and the two capture pseudo-headers PPI / PKTAP (not serializable);
+    * the two capture pseudo-headers PPI / PKTAP (not serializable);
     * an IP datagram whose serialization does not fit the 16-bit total length (`hdr + size() ≥ 65536`: parsed with
       `tot_len = 0`, the TSO convention, from a buffer of 64 KiB or more), likewise IPv6 beyond a 16-bit payload length
-      (jumbograms);
+      (jumbograms), likewise an RC4EAPOL / RSNEAPOL frame beyond the 16-bit EAPOL length (`size() − 4 ≥ 65536`: only reachable
+      through the class-name constructors; `EAPOL::from_bytes` cuts the buffer at that length);
     * ICMP / ICMPv6 with an RFC 4884 extension structure, or an error message whose quote is not ghost-free: known
       findings KF-C03-Icmp-3/4 (the re-serialization pads the quote to 128 bytes and derives the length field, which moves
       where the re-parser looks for a structure); for ICMPv6 additionally the MLD / neighbour-discovery conditions of
       `icmp6_reparse_plain` (`BodyWire`, `OptsWire`, an MLDv1 query without MLDv2 members) are kept as hypotheses — the
       family does not export the lemma that parsing establishes them.
+  Nothing of the App family (ARP, STP, VXLAN, RTP, BootP, DHCP, DHCPv6) and — besides the EAPOL length bound — nothing of the
+  Wifi family (RadioTap, the 21 Dot11 classes and `Dot11::from_bytes`, RC4EAPOL, RSNEAPOL and `EAPOL::from_bytes`) is excluded.
+  (`EAPOL::from_bytes` returning a null pointer for an unknown key-descriptor type is not an accepted packet in the model:
+  the chain parser answers `unmodelled EAPOL:null`, never `.ok` — `eapolNull_unmodelled`.)
   Everything else is established by the constructors themselves: the invariants and serializability (`parsed_layers_good`),
-  wire-normal IP options, canonical TCP options, aligned IPv6 extension headers, a representable AH ICV, and the link of
-  every layer to its successor (`*_parse_linkA`) — IP fragments (payload kept as RawPDU) included.
+  wire-normal IP options, canonical TCP options, aligned IPv6 extension headers, a representable AH ICV, canonical DHCP /
+  DHCPv6 / Dot11 tagged options, RTP's `Canon`, BootP's 64-byte vendor area, the RadioTap header and flags condition
+  (`radiotap_parse_facts`), the EAPOL key bound, the entry name under which the re-parse reaches the same class
+  (`EntryName`: `Dot11*`, `EAPOL`, `EAPOL*` included), and the link of every layer to its successor (`*_parse_linkA`,
+  `app_parse_facts`, `dot11_parse_facts`, `eapol_parse_facts_all`) — IP fragments (payload kept as RawPDU) included.
 
   `IP::prepare_for_serialize()` replaces a source address 0.0.0.0 of a top-level IP by the address of the interface that
   routes to the destination; the wire model has no parameter for the host's routing table, so `c03_all` excludes such
